@@ -358,3 +358,87 @@ func (d *deepView) sliceDeep(v ssa.Value, fr *frame) map[ssa.Value]bool {
 	rec(v, fr, 0)
 	return out
 }
+
+// deepWrite is one datum handed to binary.Write somewhere in the view, with the
+// stream object and the datum resolved across frames.
+type deepWrite struct {
+	call   *ssa.Call
+	fr     *frame
+	seq    int
+	stream dval
+	datum  dval
+	order  string
+}
+
+// binaryWrites lists every datum written with encoding/binary.Write in the view
+// (in program order), expanding the slice-literal loop idiom and variadic
+// wrapper parameters.
+func (d *deepView) binaryWrites() []deepWrite {
+	var out []deepWrite
+	for _, di := range d.order {
+		call, ok := di.i.(*ssa.Call)
+		if !ok || ir.CallID(call) != "encoding/binary.Write" {
+			continue
+		}
+		stream := d.objectOf(call.Call.Args[0], di.fr)
+		order := byteOrderOf(call.Call.Args[1])
+		data := call.Call.Args[2]
+		add := func(v ssa.Value, fr *frame) {
+			r := dval{v, fr}
+			for k := 0; k < 12; k++ {
+				n := d.resolve(ir.StripIface(r.v), r.fr)
+				n.v = ir.StripIface(n.v)
+				if n.same(r) {
+					break
+				}
+				r = n
+			}
+			out = append(out, deepWrite{call, di.fr, di.seq, stream, r, order})
+		}
+		if elems, ok := literalElems(data); ok {
+			for _, el := range elems {
+				add(el, di.fr)
+			}
+			continue
+		}
+		// element of a variadic parameter: the literal at this frame's call site
+		if ld, ok := data.(*ssa.UnOp); ok {
+			if ia, ok := ld.X.(*ssa.IndexAddr); ok {
+				if p, ok := ia.X.(*ssa.Parameter); ok && di.fr.site != nil {
+					idx := -1
+					for k, q := range di.fr.fn.Params {
+						if q == p {
+							idx = k
+						}
+					}
+					args := ir.CallArgs(di.fr.site)
+					if idx >= 0 && idx < len(args) {
+						if elems := orderedVariadic(args[idx]); elems != nil {
+							for _, el := range elems {
+								add(el, di.fr.parent)
+							}
+							continue
+						}
+					}
+				}
+			}
+		}
+		add(data, di.fr)
+	}
+	return out
+}
+
+// fieldIDOf: the struct field a (resolved) value is loaded from ("" if none).
+func fieldIDOf(v ssa.Value) string {
+	v = ir.StripConv(v)
+	if id := ir.FieldID(v); id != "" {
+		return id
+	}
+	if ld, ok := v.(*ssa.UnOp); ok && ld.Op == token.MUL {
+		// *p.F where p.F is a pointer field: load(load(FieldAddr))
+		if inner, ok := ld.X.(*ssa.UnOp); ok && inner.Op == token.MUL {
+			return ir.FieldID(inner.X)
+		}
+	}
+	return ""
+}
